@@ -11,59 +11,76 @@ PARSE_LIMIT = "parser::Parser::parse_limit"
 
 
 def r1(ctx):
+    """the ordered buffer keeps exactly the first `limit` rows of the stable key order (all rows without a limit):
+    TopN::insert and TopN::values are evaluated (finite interpreter, BTreeMap modelled as a key-ordered map) on every
+    sequence of up to four insertions over three keys, for limit = none, 1, 2, 3"""
+    import interp
+    import itertools
     hir = ctx.anchor_hir(INSERT)
-    # statement order: count += 1, push, then the eviction test
-    order = list(walk_exprs(hir))
-    incs = [i for i, s in enumerate(order) if s["k"] == "AssignOp" and s["op"] == "+=" and render(s["l"]) == "self.count" and render(s["r"]) == "1"]
-    evict_if = None
-    for c, body_, node in conditions(hir):
-        if "self.count" in render(c) and "limit" in render(c) and peel(c, methods=False)["k"] == "Bin":
-            evict_if = (next(i for i, s in enumerate(order) if s is c), {"c": c, "t": body_, "sp": node.get("sp", "?")})
-    if not incs or evict_if is None:
-        ctx.violation("anchor/topn-insert", INSERT, "count increment / eviction test of TopN::insert not found")
+    ps = ctx.prog.fns[INSERT]["params"]
+    vname = "util::top_n::TopN::values"
+    vh = ctx.anchor_hir(vname)
+    vps = ctx.prog.fns[vname]["params"]
+    if len(ps) != 3:
+        ctx.violation("anchor/topn-insert", INSERT, "TopN::insert no longer takes (self, key, value)")
         raise Abort()
-    ok_order = incs[0] < evict_if[0]
-    # predicate: evict iff count (after the increment) > limit
-    ev = Evaluator(lambda n: {"limit": "limit", "self.count": "count"}.get(render(peel(n, methods=False))))
-    bad = []
     n = 0
-    for w in weak_orderings(["limit", "count"]):
-        got = ev.boolean(evict_if[1]["c"], w)
-        want = w["count"] > w["limit"]
-        n += 1
-        ctx.obligation(got == want)
-        if got != want:
-            bad.append("count %s limit" % ("=" if w["count"] == w["limit"] else ("<" if w["count"] < w["limit"] else ">")))
-    if bad or not ok_order:
-        ctx.violation("topn/eviction-test", ctx.where(INSERT, evict_if[1]),
-                      "TopN must evict exactly when the row count after insertion exceeds the limit; `%s` differs when %s%s" %
-                      (render(evict_if[1]["c"]), bad, "" if ok_order else " (count is not incremented before the test)"))
-    body = evict_if[1]["t"]
-    # inside the Some(limit) branch only
-    g = guards_of(hir, evict_if[1]["c"])
-    some_guard = any(t[0] == "if" and "LetE" == peel(t[1], methods=False)["k"] and "self.limit" in render(t[1]) for t in g) or \
-        any(t[0] == "match" and "self.limit" in render(t[1]) for t in g)
-    ctx.obligation(some_guard)
-    if not some_guard:
-        ctx.violation("topn/limitless", ctx.where(INSERT), "eviction is not confined to the Some(limit) case: an unlimited buffer could drop rows")
-    names = [c["m"] for c in walk_exprs(body) if c["k"] == "MCall"]
-    side_ok = ("next_back" in names or "last_key_value" in names or "pop_last" in names or "last" in names) and \
-        "next" not in names and "first_key_value" not in names and "pop_first" not in names
-    ctx.obligation(side_ok)
-    if not side_ok:
-        ctx.violation("topn/victim-side", ctx.where(INSERT, body), "the evicted row must come from the greatest key (next_back); methods used: %s" % names)
-    dec = any(x["k"] == "AssignOp" and x["op"] == "-=" and render(x["l"]) == "self.count" and render(x["r"]) == "1" for x in walk_exprs(body))
-    one_pop = names.count("pop") + names.count("pop_last") == 1
-    ctx.obligation(dec and one_pop)
-    if not (dec and one_pop):
-        ctx.violation("topn/bookkeeping", ctx.where(INSERT, body), "an eviction must remove exactly one row and decrement the count")
-    # a non-empty echelon is put back
-    back = any(x["k"] == "If" and "is_empty" in render(x["c"]) and any(c["k"] == "MCall" and c["m"] == "insert" for c in walk_exprs(x["t"])) for x in walk_exprs(body))
-    ctx.obligation(back)
-    if not back:
-        ctx.violation("topn/reinsert", ctx.where(INSERT, body), "the remaining rows of the victim's echelon are not put back")
-    ctx.covered("TopN::insert: eviction predicate on the 3 orderings of (count, limit), victim side, bookkeeping", n + 4,
-                distinct_keys=["lt", "eq", "gt", "side", "book", "reinsert", "limitless"], sample=render(evict_if[1]["c"]), exhaustive=True)
+    bad = None
+    # the fields of the struct as its constructors build them
+    def fresh(limit):
+        for cname, args in (("util::top_n::TopN::limitless", []), ("util::top_n::TopN::new", [limit])):
+            if (limit is None) != (cname.endswith("limitless")):
+                continue
+            ch = ctx.prog.hir(cname)
+            cps = ctx.prog.fns[cname]["params"] if cname in ctx.prog.fns else None
+            if ch is None or cps is None:
+                raise interp.Undecided("constructor %s not found" % cname)
+
+            def call(node, recv, argv, it, env):
+                if node.get("exp") or "assert" in str(node.get("mac", "")):
+                    return ((),)
+                return None
+            return interp.Interp(prog=ctx.prog, effect=lambda node, it, env: ((),)).run(ch, {p["id"]: a for p, a in zip(cps, args)})
+    try:
+        for limit in (None, 1, 2, 3):
+            for ln in range(0, 5):
+                for seq in itertools.product((1, 2, 3), repeat=ln):
+                    t = fresh(limit)
+                    rows = []
+                    for i_, k in enumerate(seq):
+                        v = "r%d" % i_
+                        rows.append((k, i_, v))
+                        keep = sorted(rows, key=lambda r_: (r_[0], r_[1]))
+                        evicted = None
+                        if limit is not None and len(keep) > limit:
+                            evicted = keep[-1]
+                            keep = keep[:limit]
+                        rows = keep
+                        got = interp.Interp(prog=ctx.prog, max_steps=20000).run(hir, {ps[0]["id"]: t, ps[1]["id"]: k, ps[2]["id"]: v})
+                        want_ret = interp.some(evicted[2]) if evicted else interp.NONE
+                        vals = interp.Interp(prog=ctx.prog, max_steps=20000).run(vh, {vps[0]["id"]: t})
+                        n += 1
+                        if got != want_ret and bad is None:
+                            bad = ("eviction", "with limit %s after inserting keys %s insert returns %s, expected %s" % (limit, list(seq[:i_ + 1]), got, want_ret))
+                        if list(vals) != [r_[2] for r_ in rows] and bad is None:
+                            bad = ("kept-rows" if limit is not None else "limitless", "with limit %s after inserting keys %s the buffer holds %s, expected %s "
+                                   "(the first rows of the stable key order)" % (limit, list(seq[:i_ + 1]), list(vals), [r_[2] for r_ in rows]))
+                        if bad:
+                            break
+                    if bad:
+                        break
+                if bad:
+                    break
+            if bad:
+                break
+    except interp.Undecided as e:
+        bad = ("unreadable", "cannot evaluate TopN: %s" % e)
+    ctx.obligation(bad is None)
+    if bad:
+        ctx.violation("topn/%s" % bad[0], ctx.where(INSERT), "TopN must keep exactly the first `limit` rows in key order and lose no row without a limit: %s" % bad[1])
+    ctx.covered("TopN::insert / values evaluated on every sequence of <= 4 insertions over 3 keys x 4 limits", n,
+                distinct_keys=["limit:none", "limit:1", "limit:2", "limit:3"], exhaustive=True)
+    ctx.floor(n, 400, "TopN evaluations", INSERT)
 
 
 def _stop_condition_table(cond):
